@@ -72,6 +72,19 @@ def run(chk):
             base.write_text(tablegen.table_text(entries))
         n = r.choice([0, 3, 10, 40, 200]) if not quick else r.choice([0, 3, 10, 40, 120])
         rules = gen_rules(r, n, incdir=work)
+        if r.chance(0.15):
+            # a burst of rejected rules of one kind, then a valid one of the same kind: whatever a rejection leaves behind
+            # (counters, nesting levels) adds up
+            bad_inc = work / "incbad.uti"
+            bad_inc.write_text("nosuchopcode x 1\n")     # (valid lines in front of the error would take effect: not an invalid RULE any more)
+            good_inc = work / "incgood.uti"
+            good_inc.write_text("sign \\x2469 12345\n")
+            burst = r.choice([[("include %s" % bad_inc, False)] * 40 + [("include %s" % good_inc, True)],
+                              [("include %s/nosuchfile.uti" % work, False)] * 40 + [("include %s" % good_inc, True)],
+                              [("always", False)] * 40 + [("always ab 123", True)]])
+            at = r.range(0, len(rules))
+            rules = rules[:at] + burst + rules[at:]
+            chk.tally("sequences_with_a_burst_of_rejected_rules")
         other = work / ("other%d.utb" % si)
         other.write_text("space \\s 0\nletter a 1\nletter b 12\n")
         inputs = [[r.choice([97, 98, 99, 100, 101, 102, 32, 46]) for _ in range(r.range(1, 16))] for _ in range(8)]
